@@ -1,6 +1,7 @@
 package main
 
 import (
+	"go/constant"
 	"fmt"
 	"go/token"
 	"go/types"
@@ -145,199 +146,12 @@ func c10(c *Ctx) {
 	c10HistorySkipCounter(c, "C10.4/history-skip-counter-starts-after-memory-versions")
 	c10ReaderRestart(c, "C10.7/reader-restart-resets-iteration-state")
 	c10SnapshotTime(c, "C10.9/snapshot-time-follows-its-root")
+	c10SeekBoundary(c, "C10.11/key-equal-to-a-child-minimum-goes-to-that-child")
+	c10SubtreeMinOffset(c, "C10.10/subtree-min-offset-is-the-minimum-of-the-children-minima")
 	// prefix readers: a bound clamped to the prefix range is inclusive (analysis shared with C04.7)
 	c04ScanBounds(c, "C10.8/clamped-scan-bound-is-inclusive")
-	// ---- C10.1 copy-on-write -----------------------------------------------------------------------
-	r := "C10.1/copy-on-write"
-	nw := 0
-	mutGuard := func(root ssa.Value) edgePred {
-		rd := desc(root)
-		return whenCond(true, func(a string) bool {
-			return a == rd+".mut" || strings.HasPrefix(a, "call:embedded/tbtree.(*innerNode).mutated["+rd) || strings.HasPrefix(a, "call:embedded/tbtree.(*leafNode).mutated["+rd)
-		})
-	}
-	commitLogEdge := whenCond(true, func(a string) bool { return hasFieldSuffix(a, "commitLog") })
-	for _, fn := range c.allFns {
-		if !fnInPkgs(fn, tbPkgs) || len(fn.Blocks) == 0 {
-			continue
-		}
-		top := fnName(topFn(fn))
-		perKey := map[string]int{}
-		checkWrite := func(in ssa.Instruction, addr ssa.Value, what string) {
-			root, fields := rootOf(addr)
-			touched := ""
-			for _, f := range fields {
-				if cowFields[f] {
-					touched = f
-				}
-			}
-			if touched == "" {
-				return
-			}
-			nw++
-			perKey[touched]++
-			construct := fmt.Sprintf("%s:%s:%s#%d", fnName(fn), what, touched, perKey[touched])
-			switch {
-			case isFreshObj(root):
-				c.ok(r, construct, c.pos(in.Pos()), "object is freshly allocated in this function")
-			case mutRecv[top] && isReceiverOf(root, fn):
-				c.ok(r, construct, c.pos(in.Pos()), "receiver of an in-place mutator (its call sites carry the obligation)")
-			case strings.HasSuffix(top, ").writeTo"):
-				q := &pathQ{fn: fn, fromEntry: true, to: func(x ssa.Instruction) bool { return x == in }, barrier: commitLogEdge}
-				c.check(q.bypass() == nil, r, construct, c.pos(in.Pos()), "writeTo re-points history/offsets only under commitLog (documented exception: logical content preserved)",
-					"writeTo changes "+touched+" outside the commitLog branch: a snapshot dump would alter the live tree")
-			default:
-				q := &pathQ{fn: fn, fromEntry: true, to: func(x ssa.Instruction) bool { return x == in }, barrier: mutGuard(root)}
-				c.check(q.bypass() == nil, r, construct, c.pos(in.Pos()), "dominated by the mut==true edge of the written node",
-					fmt.Sprintf("%s of shared node field %s (object %s) without copy: not fresh, not under a mutated() guard, not an in-place mutator", what, touched, desc(root)))
-			}
-		}
-		// deep-copy rule: leafValue objects are mutated in place by their owning leaf, so a leaf under
-		// construction must not adopt the leafValue pointers of a node that may be shared with snapshots
-		private := func(v ssa.Value) bool {
-			root, _ := rootOf(v)
-			return isFreshObj(root) || (mutRecv[top] && isReceiverOf(root, fn))
-		}
-		adopt := func(in ssa.Instruction, dst, src ssa.Value, what string) {
-			droot, dfields := rootOf(dst)
-			touches := false
-			for _, f := range dfields {
-				if f == "leafNode.values" {
-					touches = true
-				}
-			}
-			if !touches || !isFreshObj(droot) {
-				return
-			}
-			nw++
-			perKey["adopt"]++
-			construct := fmt.Sprintf("%s:%s:leafNode.values-elements#%d", fnName(fn), what, perKey["adopt"])
-			c.check(private(src), r+"/deep-copy", construct, c.pos(in.Pos()), "elements come from fresh leafValue objects or from a private node",
-				"a new leaf adopts the *leafValue objects of "+desc(src)+", which may still be referenced by snapshots: later in-place updates would alter those snapshots")
-		}
-		for _, b := range fn.Blocks {
-			for _, in := range b.Instrs {
-				switch x := in.(type) {
-				case *ssa.Store:
-					if ia, ok := x.Addr.(*ssa.IndexAddr); ok {
-						adopt(in, ia, x.Val, "element-store")
-					}
-					if f, base := fieldOf(x.Addr); f == "leafNode.values" && isFreshObj(base) {
-						// composite literal `values: <expr>`: a slice taken from another node
-						if _, isMake := x.Val.(*ssa.MakeSlice); !isMake {
-							nw++
-							perKey["adopt"]++
-							construct := fmt.Sprintf("%s:literal:leafNode.values#%d", fnName(fn), perKey["adopt"])
-							c.check(private(x.Val), r+"/deep-copy", construct, c.pos(in.Pos()), "slice comes from a private node", "a new leaf is built on the values slice of "+desc(x.Val)+", which may be shared with snapshots")
-						}
-					}
-					checkWrite(in, x.Addr, "store")
-				case *ssa.Call:
-					if bi, ok := x.Call.Value.(*ssa.Builtin); ok && bi.Name() == "copy" && len(x.Call.Args) == 2 {
-						adopt(in, x.Call.Args[0], x.Call.Args[1], "copy")
-						checkWrite(in, x.Call.Args[0], "copy-into")
-					}
-				}
-			}
-		}
-		// calls of in-place mutators
-		for i, in := range sites(fn, func(x ssa.Instruction) bool {
-			cc := callOf(x)
-			return cc != nil && mutRecv[calleeName(cc)]
-		}) {
-			cc := callOf(in)
-			recv, _ := rootOf(cc.Args[0])
-			construct := fmt.Sprintf("%s:calls:%s#%d", fnName(fn), lastSeg(calleeName(cc)), i)
-			switch {
-			case isFreshObj(recv):
-				c.ok(r, construct, c.pos(in.Pos()), "receiver freshly allocated by the caller")
-			case mutRecv[top] && isReceiverOf(recv, fn):
-				c.ok(r, construct, c.pos(in.Pos()), "caller is itself an in-place mutator of the same receiver")
-			default:
-				q := &pathQ{fn: fn, fromEntry: true, to: func(x ssa.Instruction) bool { return x == in }, barrier: mutGuard(recv)}
-				c.check(q.bypass() == nil, r, construct, c.pos(in.Pos()), "dominated by the mutated()==true edge of the receiver",
-					"in-place mutator "+calleeName(cc)+" is called on a node that may be shared with snapshots ("+desc(recv)+")")
-			}
-		}
-	}
-	c.count("cow_writes", nw)
-	if nw < 20 {
-		c.undecided(r, "floor", fmt.Sprintf("expected >=20 writes to logical node fields, found %d", nw))
-	}
-	for m := range mutRecv {
-		if c.fn(m) == nil {
-			c.undecided(r, m, "in-place mutator does not resolve")
-		}
-	}
-
-	// ---- C10.1 copies carry every field ---------------------------------------------------------------
-	// a node or leaf value built as a copy of another one (some field initialised from the same field of
-	// another object of the same type) must initialise every field of the type: a field left at its zero value
-	// silently drops part of the logical content (the history pointers hOff/hCount of a leaf value)
-	rc := "C10.1/copy-carries-every-field"
-	ncopies := 0
-	for _, fn := range c.allFns {
-		if !fnInPkgs(fn, tbPkgs) || len(fn.Blocks) == 0 {
-			continue
-		}
-		ord := 0
-		allInstrs(fn, false, func(in ssa.Instruction) {
-			a, ok := in.(*ssa.Alloc)
-			if !ok || !a.Heap {
-				return
-			}
-			st := structName(a.Type())
-			// nodes (leafNode/innerNode) are excluded on purpose: their _ts/_minOff are derived and recomputed by
-			// updateTs after construction, so "every field initialised" is not a necessary condition for them
-			if st != "leafValue" {
-				return
-			}
-			stype, _ := a.Type().Underlying().(*types.Pointer).Elem().Underlying().(*types.Struct)
-			if stype == nil {
-				return
-			}
-			set := map[string]bool{}
-			isCopy := false
-			for _, ref := range *a.Referrers() {
-				fa, ok := ref.(*ssa.FieldAddr)
-				if !ok {
-					continue
-				}
-				name := stype.Field(fa.Field).Name()
-				for _, r2 := range *fa.Referrers() {
-					sto, ok := r2.(*ssa.Store)
-					if !ok || sto.Addr != fa {
-						continue
-					}
-					set[name] = true
-					// value is a load of the same field of another object of this type
-					if ld, ok := sto.Val.(*ssa.UnOp); ok && ld.Op == token.MUL {
-						if sfa, ok := ld.X.(*ssa.FieldAddr); ok && structName(sfa.X.Type()) == st && sfa.Field == fa.Field && sfa.X != ssa.Value(a) {
-							isCopy = true
-						}
-					}
-				}
-			}
-			if !isCopy {
-				return
-			}
-			ncopies++
-			ord++
-			for i := 0; i < stype.NumFields(); i++ {
-				name := stype.Field(i).Name()
-				if why, ok := c10CopyExempt[st+"."+name]; ok {
-					c.okTrivial(rc, fmt.Sprintf("%s:%s#%d:%s", fnName(fn), st, ord, name), c.pos(a.Pos()), "exempt: "+why)
-					continue
-				}
-				c.check(set[name], rc, fmt.Sprintf("%s:%s#%d:%s", fnName(fn), st, ord, name), c.pos(a.Pos()), "field is carried over or re-initialised",
-					fmt.Sprintf("a %s is built as a copy of another one but its field %s is left at the zero value", st, name))
-			}
-		})
-	}
-	if ncopies < 2 {
-		c.undecided(rc, "floor", fmt.Sprintf("%d copy sites of tree nodes found (2 leaf-value copies confirmed by hand)", ncopies))
-	}
-
+	c10CopyOnWrite(c, "C10.1")
+	var r string
 	// ---- C10.2 lockset and pairing -------------------------------------------------------------------
 	c.rulePairing("C10.2/lock-pairing", tbPkgs, map[string]string{
 		tbT + "SyncSnapshot:TBtree.rwmutex/R": "the snapshot pins the live root; released by snapshotClosed",
@@ -779,5 +593,412 @@ func c10SnapshotTime(c *Ctx, r string) {
 	for i, in := range sites(f, storeTo("Snapshot.root")) {
 		v := in.(*ssa.Store).Val
 		c.check(v == ssa.Value(rootParam), r, fmt.Sprintf("%s:Snapshot.root#%d", fnName(f), i), c.pos(in.Pos()), "the root parameter", "Snapshot.root is "+desc(v)+" instead of the root handed to newSnapshot")
+	}
+}
+
+// c10CopyOnWrite: snapshots stay what they were because the writer never changes a node or a leaf value a snapshot may
+// still reference (shared with C06: a read never observes a state that did not exist).
+func c10CopyOnWrite(c *Ctx, pfx string) {
+	// ---- C10.1 copy-on-write -----------------------------------------------------------------------
+	r := pfx + "/copy-on-write"
+	nw := 0
+	mutGuard := func(root ssa.Value) edgePred {
+		rd := desc(root)
+		return whenCond(true, func(a string) bool {
+			return a == rd+".mut" || strings.HasPrefix(a, "call:embedded/tbtree.(*innerNode).mutated["+rd) || strings.HasPrefix(a, "call:embedded/tbtree.(*leafNode).mutated["+rd)
+		})
+	}
+	commitLogEdge := whenCond(true, func(a string) bool { return hasFieldSuffix(a, "commitLog") })
+	for _, fn := range c.allFns {
+		if !fnInPkgs(fn, tbPkgs) || len(fn.Blocks) == 0 {
+			continue
+		}
+		top := fnName(topFn(fn))
+		perKey := map[string]int{}
+		checkWrite := func(in ssa.Instruction, addr ssa.Value, what string) {
+			root, fields := rootOf(addr)
+			touched := ""
+			for _, f := range fields {
+				if cowFields[f] {
+					touched = f
+				}
+			}
+			if touched == "" {
+				return
+			}
+			nw++
+			perKey[touched]++
+			construct := fmt.Sprintf("%s:%s:%s#%d", fnName(fn), what, touched, perKey[touched])
+			switch {
+			case isFreshObj(root):
+				c.ok(r, construct, c.pos(in.Pos()), "object is freshly allocated in this function")
+			case mutRecv[top] && isReceiverOf(root, fn):
+				c.ok(r, construct, c.pos(in.Pos()), "receiver of an in-place mutator (its call sites carry the obligation)")
+			case strings.HasSuffix(top, ").writeTo"):
+				q := &pathQ{fn: fn, fromEntry: true, to: func(x ssa.Instruction) bool { return x == in }, barrier: commitLogEdge}
+				c.check(q.bypass() == nil, r, construct, c.pos(in.Pos()), "writeTo re-points history/offsets only under commitLog (documented exception: logical content preserved)",
+					"writeTo changes "+touched+" outside the commitLog branch: a snapshot dump would alter the live tree")
+			default:
+				q := &pathQ{fn: fn, fromEntry: true, to: func(x ssa.Instruction) bool { return x == in }, barrier: mutGuard(root)}
+				c.check(q.bypass() == nil, r, construct, c.pos(in.Pos()), "dominated by the mut==true edge of the written node",
+					fmt.Sprintf("%s of shared node field %s (object %s) without copy: not fresh, not under a mutated() guard, not an in-place mutator", what, touched, desc(root)))
+			}
+		}
+		// deep-copy rule: leafValue objects are mutated in place by their owning leaf, so a leaf under
+		// construction must not adopt the leafValue pointers of a node that may be shared with snapshots
+		private := func(v ssa.Value) bool {
+			root, _ := rootOf(v)
+			return isFreshObj(root) || (mutRecv[top] && isReceiverOf(root, fn))
+		}
+		adopt := func(in ssa.Instruction, dst, src ssa.Value, what string) {
+			droot, dfields := rootOf(dst)
+			touches := false
+			for _, f := range dfields {
+				if f == "leafNode.values" {
+					touches = true
+				}
+			}
+			if !touches || !isFreshObj(droot) {
+				return
+			}
+			nw++
+			perKey["adopt"]++
+			construct := fmt.Sprintf("%s:%s:leafNode.values-elements#%d", fnName(fn), what, perKey["adopt"])
+			c.check(private(src), r+"/deep-copy", construct, c.pos(in.Pos()), "elements come from fresh leafValue objects or from a private node",
+				"a new leaf adopts the *leafValue objects of "+desc(src)+", which may still be referenced by snapshots: later in-place updates would alter those snapshots")
+		}
+		for _, b := range fn.Blocks {
+			for _, in := range b.Instrs {
+				switch x := in.(type) {
+				case *ssa.Store:
+					if ia, ok := x.Addr.(*ssa.IndexAddr); ok {
+						adopt(in, ia, x.Val, "element-store")
+					}
+					if f, base := fieldOf(x.Addr); f == "leafNode.values" && isFreshObj(base) {
+						// composite literal `values: <expr>`: a slice taken from another node
+						if _, isMake := x.Val.(*ssa.MakeSlice); !isMake {
+							nw++
+							perKey["adopt"]++
+							construct := fmt.Sprintf("%s:literal:leafNode.values#%d", fnName(fn), perKey["adopt"])
+							c.check(private(x.Val), r+"/deep-copy", construct, c.pos(in.Pos()), "slice comes from a private node", "a new leaf is built on the values slice of "+desc(x.Val)+", which may be shared with snapshots")
+						}
+					}
+					checkWrite(in, x.Addr, "store")
+				case *ssa.Call:
+					if bi, ok := x.Call.Value.(*ssa.Builtin); ok && bi.Name() == "copy" && len(x.Call.Args) == 2 {
+						adopt(in, x.Call.Args[0], x.Call.Args[1], "copy")
+						checkWrite(in, x.Call.Args[0], "copy-into")
+					}
+				}
+			}
+		}
+		// calls of in-place mutators
+		for i, in := range sites(fn, func(x ssa.Instruction) bool {
+			cc := callOf(x)
+			return cc != nil && mutRecv[calleeName(cc)]
+		}) {
+			cc := callOf(in)
+			recv, _ := rootOf(cc.Args[0])
+			construct := fmt.Sprintf("%s:calls:%s#%d", fnName(fn), lastSeg(calleeName(cc)), i)
+			switch {
+			case isFreshObj(recv):
+				c.ok(r, construct, c.pos(in.Pos()), "receiver freshly allocated by the caller")
+			case mutRecv[top] && isReceiverOf(recv, fn):
+				c.ok(r, construct, c.pos(in.Pos()), "caller is itself an in-place mutator of the same receiver")
+			default:
+				q := &pathQ{fn: fn, fromEntry: true, to: func(x ssa.Instruction) bool { return x == in }, barrier: mutGuard(recv)}
+				c.check(q.bypass() == nil, r, construct, c.pos(in.Pos()), "dominated by the mutated()==true edge of the receiver",
+					"in-place mutator "+calleeName(cc)+" is called on a node that may be shared with snapshots ("+desc(recv)+")")
+			}
+		}
+	}
+	c.count("cow_writes", nw)
+	if nw < 20 {
+		c.undecided(r, "floor", fmt.Sprintf("expected >=20 writes to logical node fields, found %d", nw))
+	}
+	for m := range mutRecv {
+		if c.fn(m) == nil {
+			c.undecided(r, m, "in-place mutator does not resolve")
+		}
+	}
+
+	// ---- C10.1 copies carry every field ---------------------------------------------------------------
+	// a node or leaf value built as a copy of another one (some field initialised from the same field of
+	// another object of the same type) must initialise every field of the type: a field left at its zero value
+	// silently drops part of the logical content (the history pointers hOff/hCount of a leaf value)
+	rc := pfx + "/copy-carries-every-field"
+	ncopies := 0
+	for _, fn := range c.allFns {
+		if !fnInPkgs(fn, tbPkgs) || len(fn.Blocks) == 0 {
+			continue
+		}
+		ord := 0
+		allInstrs(fn, false, func(in ssa.Instruction) {
+			a, ok := in.(*ssa.Alloc)
+			if !ok || !a.Heap {
+				return
+			}
+			st := structName(a.Type())
+			// nodes (leafNode/innerNode) are excluded on purpose: their _ts/_minOff are derived and recomputed by
+			// updateTs after construction, so "every field initialised" is not a necessary condition for them
+			if st != "leafValue" {
+				return
+			}
+			stype, _ := a.Type().Underlying().(*types.Pointer).Elem().Underlying().(*types.Struct)
+			if stype == nil {
+				return
+			}
+			set := map[string]bool{}
+			isCopy := false
+			for _, ref := range *a.Referrers() {
+				fa, ok := ref.(*ssa.FieldAddr)
+				if !ok {
+					continue
+				}
+				name := stype.Field(fa.Field).Name()
+				for _, r2 := range *fa.Referrers() {
+					sto, ok := r2.(*ssa.Store)
+					if !ok || sto.Addr != fa {
+						continue
+					}
+					set[name] = true
+					// value is a load of the same field of another object of this type
+					if ld, ok := sto.Val.(*ssa.UnOp); ok && ld.Op == token.MUL {
+						if sfa, ok := ld.X.(*ssa.FieldAddr); ok && structName(sfa.X.Type()) == st && sfa.Field == fa.Field && sfa.X != ssa.Value(a) {
+							isCopy = true
+						}
+					}
+				}
+			}
+			if !isCopy {
+				return
+			}
+			ncopies++
+			ord++
+			for i := 0; i < stype.NumFields(); i++ {
+				name := stype.Field(i).Name()
+				if why, ok := c10CopyExempt[st+"."+name]; ok {
+					c.okTrivial(rc, fmt.Sprintf("%s:%s#%d:%s", fnName(fn), st, ord, name), c.pos(a.Pos()), "exempt: "+why)
+					continue
+				}
+				c.check(set[name], rc, fmt.Sprintf("%s:%s#%d:%s", fnName(fn), st, ord, name), c.pos(a.Pos()), "field is carried over or re-initialised",
+					fmt.Sprintf("a %s is built as a copy of another one but its field %s is left at the zero value", st, name))
+			}
+		})
+	}
+	if ncopies < 2 {
+		c.undecided(rc, "floor", fmt.Sprintf("%d copy sites of tree nodes found (2 leaf-value copies confirmed by hand)", ncopies))
+	}
+
+}
+
+// dependsOnMem: like dependsOn, and a load of an element of a locally made slice depends on every value stored into
+// an element of that slice.
+func dependsOnMem(v ssa.Value, p func(ssa.Value) bool) bool {
+	seen := map[ssa.Value]bool{}
+	var walk func(x ssa.Value, d int) bool
+	walk = func(x ssa.Value, d int) bool {
+		if x == nil || seen[x] || d > 14 {
+			return false
+		}
+		seen[x] = true
+		if p(x) {
+			return true
+		}
+		if ld, ok := x.(*ssa.UnOp); ok && ld.Op == token.MUL {
+			if ia, ok := ld.X.(*ssa.IndexAddr); ok {
+				if ms, ok := ia.X.(*ssa.MakeSlice); ok {
+					for _, r := range *ms.Referrers() {
+						if ia2, ok := r.(*ssa.IndexAddr); ok {
+							for _, r2 := range *ia2.Referrers() {
+								if st, ok := r2.(*ssa.Store); ok && st.Addr == ia2 && walk(st.Val, d+1) {
+									return true
+								}
+							}
+						}
+					}
+					return false
+				}
+			}
+		}
+		if in, ok := x.(ssa.Instruction); ok {
+			for _, op := range in.Operands(nil) {
+				if *op != nil && walk(*op, d+1) {
+					return true
+				}
+			}
+		}
+		return false
+	}
+	return walk(v, 0)
+}
+
+// c10SubtreeMinOffset: what an inner node records (and reports to its parent) as the lowest offset its subtree still
+// needs is the minimum over the children's SUBTREE minima, the second result of their writeTo - not over the offsets
+// of the children themselves (the two coincide only one level above the leaves). The value decides which files of the
+// nodes log a synced flush discards: too high, and files holding live leaves of a deep tree are removed.
+func c10SubtreeMinOffset(c *Ctx, r string) {
+	f := c.mustFn(r, "embedded/tbtree.(*innerNode).writeTo")
+	if f == nil {
+		return
+	}
+	childMin := func(v ssa.Value) bool {
+		ex, ok := v.(*ssa.Extract)
+		if !ok || ex.Index != 1 {
+			return false
+		}
+		cl, ok := ex.Tuple.(*ssa.Call)
+		return ok && cl.Call.IsInvoke() && cl.Call.Method.Name() == "writeTo"
+	}
+	childOff := func(v ssa.Value) bool {
+		ex, ok := v.(*ssa.Extract)
+		if !ok || ex.Index != 0 {
+			return false
+		}
+		cl, ok := ex.Tuple.(*ssa.Call)
+		return ok && cl.Call.IsInvoke() && cl.Call.Method.Name() == "writeTo"
+	}
+	n := 0
+	chk := func(what string, v ssa.Value, pos token.Pos) {
+		n++
+		okMin := dependsOnMem(v, childMin)
+		viaOff := dependsOnMem(v, childOff)
+		c.check(okMin, r, fnName(f)+":"+what, c.pos(pos), "computed from the children's subtree minima",
+			"the subtree minimum ("+what+") is "+map[bool]string{true: "computed from the offsets of the children themselves", false: "not computed from the children's subtree minima"}[viaOff]+": for a tree deeper than two levels it is too high, and a synced flush discards files of the nodes log that still hold live leaves")
+	}
+	for _, st := range sites(f, storeTo("innerNode._minOff")) {
+		chk("n._minOff", st.(*ssa.Store).Val, st.Pos())
+	}
+	for _, b := range f.Blocks {
+		if len(b.Instrs) == 0 {
+			continue
+		}
+		rt, ok := b.Instrs[len(b.Instrs)-1].(*ssa.Return)
+		if !ok || retKind(rt) == "fail" || len(rt.Results) != 5 {
+			continue
+		}
+		v := unspill(rt.Results[1], rt)
+		if fl, _ := fieldOf(v); fl == "innerNode._minOff" {
+			continue // nothing written: the recorded value is reported
+		}
+		chk("returned minOff", v, rt.Pos())
+	}
+	if n < 2 {
+		c.undecided(r, "floor", fmt.Sprintf("%d uses of the subtree minimum found in innerNode.writeTo", n))
+	}
+}
+
+// c10SeekBoundary: an inner node sends a key to the LAST child whose minimum key is <= the key: a child whose minimum
+// key EQUALS the key sought holds it. Every comparison between the key sought and a child's minimum key in the
+// descent therefore falls, on equality, on the side of the child that key belongs to:
+//   - minimum key of the child the descent enters: the descent is under the edge taken on equality;
+//   - minimum key of the NEXT child (the ascending walk looks one child ahead): the descent into the current child is
+//     under the edge not taken on equality.
+func c10SeekBoundary(c *Ctx, r string) {
+	f := c.mustFn(r, "embedded/tbtree.(*innerNode).findLeafNode")
+	if f == nil {
+		return
+	}
+	idxOfChild := func(v ssa.Value) (string, bool) { // v = *(&nodes[idx])
+		ld, ok := v.(*ssa.UnOp)
+		if !ok || ld.Op != token.MUL {
+			return "", false
+		}
+		ia, ok := ld.X.(*ssa.IndexAddr)
+		if !ok || !hasFieldSuffix(desc(ia.X), "nodes") {
+			return "", false
+		}
+		return desc(ia.Index), true
+	}
+	type descend struct {
+		in  ssa.Instruction
+		idx string
+	}
+	var ds []descend
+	allInstrs(f, false, func(in ssa.Instruction) {
+		cl, ok := in.(*ssa.Call)
+		if !ok || !cl.Call.IsInvoke() || cl.Call.Method.Name() != "findLeafNode" {
+			return
+		}
+		if ix, ok := idxOfChild(cl.Call.Value); ok {
+			ds = append(ds, descend{in, ix})
+		}
+	})
+	n := 0
+	allInstrs(f, false, func(in ssa.Instruction) {
+		bo, ok := in.(*ssa.BinOp)
+		if !ok {
+			return
+		}
+		cmp, ok := bo.X.(*ssa.Call)
+		k, okK := bo.Y.(*ssa.Const)
+		if !ok || !okK || calleeName(&cmp.Call) != "bytes.Compare" || k.Value == nil {
+			return
+		}
+		kv, _ := constant.Int64Val(k.Value)
+		var atEq bool
+		switch bo.Op {
+		case token.LSS:
+			atEq = 0 < kv
+		case token.LEQ:
+			atEq = 0 <= kv
+		case token.GTR:
+			atEq = 0 > kv
+		case token.GEQ:
+			atEq = 0 >= kv
+		case token.EQL:
+			atEq = 0 == kv
+		case token.NEQ:
+			atEq = 0 != kv
+		default:
+			return
+		}
+		// operands: one is the key sought (a []byte parameter named by its role: the first parameter), the other a minKey()
+		var childIdx string
+		seek := false
+		for _, a := range cmp.Call.Args {
+			if p, ok := a.(*ssa.Parameter); ok && len(f.Params) > 1 && p == f.Params[1] {
+				seek = true
+			}
+			if mk, ok := a.(*ssa.Call); ok && mk.Call.IsInvoke() && mk.Call.Method.Name() == "minKey" {
+				if ix, ok := idxOfChild(mk.Call.Value); ok {
+					childIdx = ix
+				}
+			}
+		}
+		if !seek || childIdx == "" {
+			return
+		}
+		var ifi *ssa.If
+		for _, rf := range *bo.Referrers() {
+			if x, ok := rf.(*ssa.If); ok {
+				ifi = x
+			}
+		}
+		if ifi == nil {
+			return
+		}
+		eqSucc := 1
+		if atEq {
+			eqSucc = 0
+		}
+		// the descent this comparison decides: the nearest one below it
+		for _, d := range ds {
+			if !(ifi.Block().Dominates(d.in.Block())) {
+				continue
+			}
+			same := d.idx == childIdx
+			n++
+			construct := fmt.Sprintf("%s:seek-vs-minKey#%d", fnName(f), n)
+			want := eqSucc
+			if !same {
+				want = 1 - eqSucc
+			}
+			c.check(edgeDominates(ifi.Block(), want, d.in.Block()), r, construct, c.pos(bo.Pos()), "a key equal to a child's minimum key is sent to that child",
+				map[bool]string{true: "a child whose minimum key equals the key sought is passed over: the reader starts at its predecessor (or finds nothing when it is the smallest key)", false: "a key equal to the next child's minimum key is sent to the current child, which does not hold it"}[same])
+		}
+	})
+	if n < 2 {
+		c.undecided(r, "floor", fmt.Sprintf("%d comparisons between the key sought and a child's minimum key found (2 confirmed by hand: descending and ascending walk)", n))
 	}
 }
